@@ -193,6 +193,17 @@ func init() {
 		e.maxInstrs = int(e.concInt(a[0], "fuel"))
 		return nil
 	})
+	v("MustFinish", func(e *Engine, fr *frame, fn *ssa.Function, a []Value) Value {
+		e.finishBudget = e.instrs + int(e.concInt(a[0], "MustFinish"))
+		if s, ok := a[1].(Str); ok {
+			e.finishMsg, _ = s.Concrete()
+		}
+		return nil
+	})
+	v("Finished", func(e *Engine, fr *frame, fn *ssa.Function, a []Value) Value {
+		e.finishBudget = 0
+		return nil
+	})
 	v("Tier", func(e *Engine, fr *frame, fn *ssa.Function, a []Value) Value {
 		return e.intC(int64(e.cfg.Tier))
 	})
